@@ -124,7 +124,16 @@ class Block2Cache:
         block_key = _extract_block_key(req)
 
         if req.opt.block2 is None or req.opt.block2.block_number == 0:
-            assembled = await response_builder()
+            try:
+                assembled = await response_builder()
+            except BaseException:
+                # This request produced no rendering; one that is still kept
+                # from an earlier request must not serve its later blocks
+                try:
+                    del self._completes[block_key]
+                except KeyError:
+                    pass
+                raise
         else:
             try:
                 assembled = self._completes[block_key]
